@@ -1,3 +1,15 @@
 //! Verification hooks for hyperqueue (compiled only with `--features verif`).
 //! See /verif/harness/tako/mod.rs.
 #![allow(dead_code, unused_imports, unexpected_cfgs, clippy::all)]
+
+#[cfg(any(not(verif_dev), verif_dev_stream))]
+pub mod stream;
+
+#[cfg(any(not(verif_dev), verif_dev_autoalloc))]
+pub mod autoalloc;
+
+#[cfg(any(not(verif_dev), verif_dev_cluster))]
+pub mod cluster;
+
+#[cfg(any(not(verif_dev), verif_dev_journal))]
+pub mod journal;
